@@ -16,7 +16,7 @@ from ...compat import Unpack, ndarray, np
 from ...util import UnitsContainer
 from ._compound_unit_helpers import BabelKwds, prepare_compount_unit
 from ._format_helpers import join_mu, override_locale
-from ._spec_helpers import REGISTERED_FORMATTERS, split_format
+from ._spec_helpers import REGISTERED_FORMATTERS, _split_format, split_format
 from .plain import BaseFormatter
 
 if TYPE_CHECKING:
@@ -128,5 +128,7 @@ def register_unit_format(name: str):
                 )
 
         REGISTERED_FORMATTERS[name] = NewFormatter()
+        # Memoised splits were computed without knowing the new flag.
+        _split_format.cache_clear()
 
     return wrapper
